@@ -46,6 +46,7 @@ MAKE = {
     "LN": lambda: [Namespace(a=1)],
     "LD": lambda: [{"a": 1}],
     "LM": lambda: [Namespace(a=1), 1],
+    "LMd": lambda: [{"a": 1}, 1],
     "dflt": lambda: "DFLT",
     "true": lambda: True,
     "false": lambda: False,
@@ -72,7 +73,7 @@ def code(v) -> str:
     for c, mk in MAKE.items():
         w = mk()
         if type(w) is type(v) and w == v and c not in ("none", "true", "false"):
-            if c in ("LN", "LM", "LD", "TN"):
+            if c in ("LN", "LM", "LD", "LMd", "TN"):
                 if [type(x) for x in w] != [type(x) for x in v]:
                     continue
             return c
@@ -234,6 +235,7 @@ def observe(ns, names) -> dict:
         "as_dict": [pc for pc in alpha_val(ns.as_dict()) if pc[0]],
         "n2d": [pc for pc in alpha_val(namespace_to_dict(ns)) if pc[0]],
         "d2n": alpha(dict_to_namespace(ns.as_dict())),
+        "rt": [pc for pc in alpha_val(dict_to_namespace(ns.as_dict()).as_dict()) if pc[0]],
         "ctor": alpha(Namespace(ns.as_dict())),
         "clone": alpha(clone),
         "clone_eq": bool(clone == ns) and not bool(clone != ns),
@@ -329,7 +331,7 @@ def _unrename(ns, inv):
 
 
 NAMES_RANDOM = ["a", "b", "c"] + CLASH
-LEAVES = ["i1", "i2", "none", "L1", "T1", "LN", "LM", "s", "f", "L0", "LL", "T0", "TN", "TL", "zero", "es", "false", "S0"]
+LEAVES = ["i1", "i2", "none", "L1", "T1", "LN", "LM", "LD", "LMd", "s", "f", "L0", "LL", "T0", "TN", "TL", "zero", "es", "false", "S0"]
 
 
 def random_value(rnd, depth=0):
